@@ -1,9 +1,332 @@
+/-
+  QV.Driver.Rrl — ops of the groups `rrl`, `rrlkey` (op `rrl`) and `rrlburst` (op `burst`).
+
+  One line = one whole history against a fresh server:
+
+    rrl <noerror_rate> <nxdomain_rate> <error_rate> <window> <slip> <v4len> <v6len> <size> <step>;<step>;…
+
+  step `s<secs>`   the hook `verif_rrl_shift(secs)`: `secs` whole seconds pass
+  step `w<ms>`     the harness really sleeps `ms` milliseconds (sub-second phases; the histories
+                   that use it keep every request ≥ 0.2 s away from a whole-second boundary of its
+                   bucket and are discarded if the real clock drifted more than 0.15 s)
+  step `q,<src>,<u|t>,<request>,<opcode>,<resp>,<rcode>,<qname>,<sos>,<edns>,<rnd>,<idx>,<dest>,<qhash>,<kc>,<bare>`
+       one request. `src` = source address (8 hex digits IPv4, 32 hex digits IPv6, before the
+       canonicalisation of `ReceivedInfo::new`); transport; the request octets (hex; used by the
+       harness only, so that a replay sends exactly the same message); opcode. Recorded by the harness
+       (inputs of the model, §3.5): `resp` = the handler produces a response at all, `rcode` =
+       its extended RCODE, `qname` = the question's QNAME (wire hex, `-` if no question was
+       read), `sos` = the wildcard source of synthesis (`-` if none), `edns` = the response
+       carries an OPT record, `rnd` = the limited response was observed slipped (used only when
+       slip ≥ 2), and the probe of the real server's `RandomState`: bucket index, masked
+       destination, 32-bit QNAME hash; `kc` = key class: two responses of the history have the
+       same class iff the real code gives them the same key (probed on four more servers);
+       `bare` = the handler's response already has TC set and no records besides OPT, so that a
+       slipped copy is octet-for-octet the same message: such a step prints `pass` for "sent or
+       slipped" (with slip ≥ 2 the spec column then follows the recorded `rnd`).
+
+  Result: `ok <token>,<token>,…` one token per `q` step:
+       `send` | `drop` | `slip:<tc>:<an>:<ns>:<ar>:<opt>` | `lim` (slip ≥ 2: limited) | `none`
+       (+ `!dest` if the probed masked destination differs from the model's; the whole result
+       gets `!key` if the model's keys are not equal exactly where the key classes are).
+  The model runs on times `(sum of shifts so far) · 10⁹ ns`: the harness keeps the real time of a
+  whole history below one second, so the whole seconds elapsed since a bucket's last refill are
+  exactly the shifts (see harness/src/g_rrl.rs).
+
+  The spec column is `-` when the history is outside the hypotheses of the C26/C27 theorems:
+  two responses with *different keys* (key classes) share a bucket (`NoBucketCollision`), two
+  different names share a QNAME hash (`HashInjectiveOn`), or a response has the key the buckets
+  are initialised with. Responses of different streams with the *same* key class are not excused:
+  that is a violation of C27.
+
+    burst <ne> <nx> <er> <window> <slip> <size> <pre> <threads> <per> <yield>
+  `pre` sequential requests of one stream, then `threads × per` requests of the same stream from
+  `threads` OS threads within one second. Result `ok <sent> <slipped> <dropped>` of the
+  concurrent part (`ok <sent> <limited>` when slip ≥ 2).
+-/
 import QV.Driver.Util
+import QV.Model.Rrl
+import QV.Spec.Rrl
 
 namespace QV.Driver
-open QV
+open QV QV.Rrl
 
-/-- ops of group `rrl` — stub (not built yet) -/
-def rrlHandler : Handler := fun _ _ => none
+namespace RrlDrv
+
+structure QStep where
+  srcHex : String
+  udp : Bool
+  opcode : Nat
+  resp : Bool
+  rcode : Nat
+  qname : Option (List UInt8)
+  sos : Option (List UInt8)
+  edns : Bool
+  rnd : Bool
+  idx : Nat
+  dest : Nat
+  qhash : Nat
+  kc : Nat
+  bare : Bool
+
+inductive Step where
+  | shift (secs : Nat)
+  | wait (ms : Nat)
+  | q (s : QStep)
+
+def hexNat (s : String) : Option Nat :=
+  s.toList.foldl (fun acc c => do let a ← acc; let d ← hexVal c; pure (a * 16 + d)) (some 0)
+
+def nameArg (s : String) : Option (Option (List UInt8)) :=
+  if s = "-" then some none else (unhex s).map (fun b => some b.toList)
+
+def parseStep (s : String) : Option Step :=
+  if s.startsWith "s" then (s.drop 1).toString.toNat?.map Step.shift
+  else if s.startsWith "w" then (s.drop 1).toString.toNat?.map Step.wait
+  else match s.splitOn "," with
+    | ["q", src, t, _req, opc, resp, rcode, qn, sos, edns, rnd, idx, dest, qh, kc, bare] => do
+      let udp ← if t = "u" then some true else if t = "t" then some false else none
+      let _ ← hexNat src
+      if src.length ≠ 8 ∧ src.length ≠ 32 then none
+      pure (.q { srcHex := src, udp, opcode := ← opc.toNat?, resp := ← boolArg resp,
+                 rcode := ← rcode.toNat?, qname := ← nameArg qn, sos := ← nameArg sos,
+                 edns := ← boolArg edns, rnd := ← boolArg rnd, idx := ← idx.toNat?,
+                 dest := ← dest.toNat?, qhash := ← qh.toNat?, kc := ← kc.toNat?, bare := ← boolArg bare })
+    | _ => none
+
+def parseSteps (s : String) : Option (List Step) := (s.splitOn ";").mapM parseStep
+
+/-- the raw source address of the model -/
+def modelSrc (h : String) : IpAddr :=
+  let n := (hexNat h).getD 0
+  if h.length = 8 then .v4 (UInt32.ofNat n)
+  else .v6 (UInt64.ofNat (n / 2 ^ 64)) (UInt64.ofNat (n % 2 ^ 64))
+
+/-- the source address of the spec -/
+def specSrc (h : String) : Spec.Rrl.Addr :=
+  let n := (hexNat h).getD 0
+  if h.length = 8 then .v4 n else .v6 n
+
+def mkContext (q : QStep) : Context :=
+  { send_response := q.resp
+    transport := if q.udp then .Udp else .Tcp
+    opcode := q.opcode
+    source := ReceivedInfo.new (modelSrc q.srcHex)
+    extended_rcode := q.rcode
+    question := q.qname
+    source_of_synthesis := q.sos
+    response := { tc := false, ancount := 1, nscount := 1, arcount := 1 + (if q.edns then 1 else 0),
+                  edns := q.edns, tsig := false }
+    rrl_action := none }
+
+/-- source of synthesis, else QNAME, else (no question) the root name -/
+def streamName (q : QStep) : List UInt8 := (q.sos.orElse fun _ => q.qname).getD ROOT_NAME
+
+/-- `RandomState` reconstructed from the probes of one history -/
+def mkRandomState (p : RrlParams) (qs : List QStep) : RandomState :=
+  -- the probe reports the QNAME hash only for NOERROR responses (0 otherwise, as in the key)
+  let names : List (List UInt8 × UInt32) := qs.filterMap fun q =>
+    if Category.ofExtendedRcode q.rcode = .NoError then some (lowerName (streamName q), UInt32.ofNat q.qhash)
+    else none
+  let hashName : List UInt8 → UInt32 := fun n => (names.lookup n).getD 0
+  let rs0 : RandomState := { hashName, hashKey := fun _ => 0 }
+  let keys : List (Key × Nat) := qs.filterMap fun q =>
+    match keyOf rs0 p (mkContext q) with
+    | .ok k => some (k, q.idx)
+    | _ => none
+  { hashName, hashKey := fun k => (keys.lookup k).getD 0 }
+
+def b01 (b : Bool) : String := if b then "1" else "0"
+
+def showModelStep (p : RrlParams) (q : QStep) (c : Context) (destOk : Bool) : String :=
+  let base :=
+    if !q.resp then "none"
+    else if q.bare then
+      match c.rrl_action with
+      | some .Drop => if p.slip ≥ 2 then "lim" else "drop"
+      | _ => "pass"
+    else match c.rrl_action with
+      | none => "send"
+      | some .Send => "send"
+      | some .Slip =>
+        if p.slip ≥ 2 then "lim"
+        else s!"slip:{b01 c.response.tc}:{c.response.ancount}:{c.response.nscount}:{c.response.arcount}:{b01 c.response.edns}"
+      | some .Drop => if p.slip ≥ 2 then "lim" else "drop"
+  if destOk then base else base ++ "!dest"
+
+/-- run the model over the steps; `none` = panic -/
+def runModel (rs : RandomState) (p : RrlParams) : List Step → Rrl → Nat → List String → Option (List String)
+  | [], _, _, acc => some acc.reverse
+  | .shift secs :: rest, r, t, acc => runModel rs p rest r (t + shiftNanos secs) acc
+  | .wait ms :: rest, r, t, acc => runModel rs p rest r (t + ms * 1000000) acc
+  | .q q :: rest, r, t, acc =>
+    let c := mkContext q
+    match processResponse rs r t q.rnd c with
+    | .ok (r', c') =>
+      let destOk := !subjectToRrl c ||
+        (match keyOf rs p c with
+         | .ok k => k.dest.toNat == q.dest
+         | _ => true)
+      runModel rs p rest r' t (showModelStep p q c' destOk :: acc)
+    | _ => none
+
+/-! spec side -/
+
+def specResponse (q : QStep) (t : Nat) : Spec.Rrl.Response :=
+  { src := specSrc q.srcHex, rcode := q.rcode, name := streamName q, udp := q.udp, opcode := q.opcode, time := t }
+
+def timed : List Step → Nat → List (QStep × Nat)
+  | [], _ => []
+  | .shift secs :: rest, t => timed rest (t + secs * Spec.Rrl.second)
+  | .wait ms :: rest, t => timed rest (t + ms * 1000000)
+  | .q q :: rest, t => (q, t) :: timed rest t
+
+/-- is the history inside the hypotheses under which the spec constrains the code? -/
+def specApplies (cfg : Spec.Rrl.Config) (qs : List (QStep × Nat)) : Bool :=
+  let lim := qs.filter fun (q, t) => q.resp && decide (Spec.Rrl.Limitable (specResponse q t))
+  lim.all fun (q, t) =>
+    let r := specResponse q t
+    -- the key all buckets start with: IPv4, masked destination 0, NOERROR, QNAME hash 0
+    let initial := decide (Spec.Rrl.catOf q.rcode = .noerror) && q.qhash == 0 &&
+      (match r.src.canonical with
+       | .v4 a => decide (Spec.Rrl.samePrefix 32 cfg.v4len a 0)
+       | .v6 _ => false)
+    !initial && lim.all fun (q', t') =>
+      let r' := specResponse q' t'
+      -- NoBucketCollision: different keys use different buckets
+      (q.kc == q'.kc || q.idx != q'.idx) &&
+      -- HashInjectiveOn: different names (ignoring case) have different hashes
+      (!(decide (Spec.Rrl.catOf q.rcode = .noerror) && decide (Spec.Rrl.catOf q'.rcode = .noerror)) ||
+        decide (Spec.Rrl.foldCase r.name = Spec.Rrl.foldCase r'.name) || q.qhash != q'.qhash)
+
+def showSpecStep (cfg : Spec.Rrl.Config) (q : QStep) (send : Bool) : String :=
+  if !q.resp then "none"
+  else if q.bare then
+    (if send then "pass" else if cfg.slip = 0 then "drop" else if cfg.slip = 1 then "pass"
+     else if q.rnd then "pass" else "lim")
+  else if send then "send"
+  else if cfg.slip = 0 then "drop"
+  else if cfg.slip = 1 then s!"slip:1:0:0:{b01 q.edns}:{b01 q.edns}"
+  else "lim"
+
+def runSpec (cfg : Spec.Rrl.Config) : List Spec.Rrl.Response → List (QStep × Nat) → List String
+  | _, [] => []
+  | past, (q, t) :: rest =>
+    let r := specResponse q t
+    if q.resp then
+      showSpecStep cfg q (Spec.Rrl.shouldSendFast cfg past r) :: runSpec cfg (past ++ [r]) rest
+    else "none" :: runSpec cfg past rest
+
+def rrlOp (a : List Nat) (stepsArg : String) : String × String :=
+  match a, parseSteps stepsArg with
+  | [ne, nx, er, w, slip, v4len, v6len, size], some steps =>
+    match RrlParams.configure ne nx er w slip v4len v6len size with
+    | .err e => ("err:" ++ e.toString, "-")
+    | .panic => ("panic", "-")
+    | .ok p =>
+      let qs := steps.filterMap fun s => match s with | .q q => some q | _ => none
+      let rs := mkRandomState p qs
+      -- the model's keys must be equal exactly where the recorded key classes are
+      let subj : List (Key × Nat) := qs.filterMap fun q =>
+        if subjectToRrl (mkContext q) then
+          match keyOf rs p (mkContext q) with
+          | .ok k => some (k, q.kc)
+          | _ => none
+        else none
+      -- distinct (key, class) pairs only: histories repeat the same request many times
+      let distinct := subj.foldl (fun acc x => if acc.contains x then acc else x :: acc) []
+      let keysOk := distinct.all fun (k, c) => distinct.all fun (k', c') => decide (k = k') == (c == c')
+      let m := match runModel rs p steps (Rrl.new p 0) 0 [] with
+        | some toks => "ok " ++ ",".intercalate toks ++ (if keysOk then "" else "!key")
+        | none => "panic"
+      let cfg : Spec.Rrl.Config := { noerrorRate := ne, nxdomainRate := nx, errorRate := er, window := w,
+                                     slip, v4len, v6len }
+      let tq := timed steps 0
+      let s := if specApplies cfg tq then "ok " ++ ",".intercalate (runSpec cfg [] tq) else "-"
+      (m, s)
+  | _, _ => bad
+
+/-! burst -/
+
+def burstKey : Key := { dest := 1, ipv6 := false, qname_hash := 1, category := .NoError }
+
+/-- `n` sequential passes through the critical section at one instant -/
+def burstModel (p : RrlParams) : Nat → Entry → (Nat × Nat × Nat) → Option (Entry × Nat × Nat × Nat)
+  | 0, e, acc => some (e, acc)
+  | n + 1, e, (s, sl, d) =>
+    match processBucket p burstKey .NoError e 0 false with
+    | .ok (e', .Send) => burstModel p n e' (s + 1, sl, d)
+    | .ok (e', .Slip) => burstModel p n e' (s, sl + 1, d)
+    | .ok (e', .Drop) => burstModel p n e' (s, sl, d + 1)
+    | _ => none
+
+def burstOp : List Nat → String × String
+  | [ne, nx, er, w, slip, size, pre, threads, per, _yield] =>
+    match RrlParams.configure ne nx er w slip 24 56 size with
+    | .err e => ("err:" ++ e.toString, "-")
+    | .panic => ("panic", "-")
+    | .ok p =>
+      let e0 : Entry := { key := initialKey, count := 0, last_refill := 0 }
+      let n := threads * per
+      let shw := fun (s sl d : Nat) => if slip ≥ 2 then s!"ok {s} {sl + d}" else s!"ok {s} {sl} {d}"
+      let m := match burstModel p pre e0 (0, 0, 0) with
+        | some (e1, _) =>
+          (match burstModel p n e1 (0, 0, 0) with
+           | some (_, s, sl, d) => shw s sl d
+           | none => "panic")
+        | none => "panic"
+      let cap := ne * w
+      let sent := Spec.Rrl.burstSent n (cap - min pre cap)
+      let lim := n - sent
+      let s := if slip = 0 then shw sent 0 lim else if slip = 1 then shw sent lim 0 else s!"ok {sent} {lim}"
+      (m, s)
+  | _ => bad
+
+/-- `bursts ne nx er window slip size rounds threads per`: `rounds` bursts of `threads × per`
+    requests, each on a stream the table has not seen (the first request of a round installs the
+    entry with count 1). Totals over all rounds. -/
+def burstsOp : List Nat → String × String
+  | [ne, nx, er, w, slip, size, rounds, threads, per] =>
+    match RrlParams.configure ne nx er w slip 24 56 size with
+    | .err e => ("err:" ++ e.toString, "-")
+    | .panic => ("panic", "-")
+    | .ok p =>
+      let e0 : Entry := { key := initialKey, count := 0, last_refill := 0 }
+      let n := threads * per
+      let shw := fun (s sl d : Nat) => if slip ≥ 2 then s!"ok {s} {sl + d}" else s!"ok {s} {sl} {d}"
+      let m := match burstModel p n e0 (0, 0, 0) with
+        | some (_, s, sl, d) => shw (rounds * s) (rounds * sl) (rounds * d)
+        | none => "panic"
+      let cap := ne * w
+      let sent := Spec.Rrl.burstSent n cap
+      let lim := n - sent
+      let s := if slip = 0 then shw (rounds * sent) 0 (rounds * lim) else if slip = 1 then shw (rounds * sent) (rounds * lim) 0
+               else s!"ok {rounds * sent} {rounds * lim}"
+      (m, s)
+  | _ => bad
+
+end RrlDrv
+
+/-- ops of groups `rrl`, `rrlkey`, `rrlburst` -/
+def rrlHandler : Handler := fun op args =>
+  match op with
+  | "rrl" =>
+    match args with
+    | [ne, nx, er, w, slip, v4, v6, size, steps] =>
+      match [ne, nx, er, w, slip, v4, v6, size].mapM natArg with
+      | some a => some (RrlDrv.rrlOp a steps)
+      | none => some bad
+    | _ => some bad
+  | "burst" =>
+    match args.mapM natArg with
+    | some a => some (RrlDrv.burstOp a)
+    | none => some bad
+  | "bursts" =>
+    match args.mapM natArg with
+    | some a => some (RrlDrv.burstsOp a)
+    | none => some bad
+  | _ =>
+    -- `rrl-discarded-<n>`: bookkeeping line of the harness (histories thrown away because the
+    -- real clock advanced too far); shows up in the evidence histogram, constrains nothing
+    if op.startsWith "rrl-discarded-" then some ("ok", "-") else none
 
 end QV.Driver
